@@ -1,8 +1,8 @@
 package gl
 
 import (
-	"sort"
 	"fmt"
+	"sort"
 	"strings"
 	"sync"
 )
@@ -140,6 +140,8 @@ type Interp struct {
 	inProg   map[int]bool
 	Disk     [][]byte
 	sched    *sched
+	// syncBlocks: every lock / cond / waitgroup allocated in this execution (in allocation order)
+	syncBlocks []*Block
 	// StoreEpoch counts heap stores (used by the spin-suspension rule of the explorer)
 	StoreEpoch int64
 	// Trace of library calls by name (coverage information)
